@@ -370,3 +370,64 @@ reg('C24', level='model_checking', runs=c24_runs, quick_budget_s=240, thorough_b
     design_ref='DESIGN.md section 4, C24', assumptions=MC_ASSUME,
     rule='one evaluation = one complete execution of one program tuple under one schedule; distinct_nontrivial = distinct scheduler states with more than one continuation',
     guards=[need_outcomes(3)])
+
+
+# ---------------------------------------------------------------------------------------------- C45
+def c45_runs(tier):
+    b = 2 if tier == 'quick' else 3
+    runs = [McRun('c45_thread_id', 'thread_id', dict(t=2), bound=b + 1),
+            McRun('c45_thread_id', 'thread_id', dict(t=3), bound=b),
+            McRun('c45_thread_id', 'thread_id', dict(t=4), bound=b - 1),
+            McRun('c45_thread_id', 'thread_id', dict(t=4), bound=b, opts={'free_switch_cost': 1}),
+            McRun('c45_thread_id', 'thread_id', dict(t=64), bound=1, opts={'free_switch_cost': 1}, budget=90),
+            McRun('c45_thread_id', 'thread_id', dict(t=3), bound=2, mode='tsan'),
+            McRun('c45_thread_id', 'thread_id', dict(t=3), bound=2, mode='asan')]
+    if tier != 'quick':
+        runs.append(McRun('c45_thread_id', 'thread_id', dict(t=8), bound=2, opts={'free_switch_cost': 1}, budget=120))
+    return runs
+
+
+reg('C45', level='model_checking', runs=c45_runs, quick_budget_s=150, thorough_budget_s=600,
+    technique='stateless model checking of threadId() first calls from 2-64 concurrently started threads',
+    level_text='T in {2,3,4} threads (plus T=64 with every non-default switch counted as a deviation, bound 1) each calling threadId() twice around a scheduling point, every interleaving up to the bound; oracle: equal within a thread, pairwise distinct across threads.',
+    level_note='the process-wide id counter is reset before each execution (numbering restarts), which does not affect distinctness or stability',
+    design_ref='DESIGN.md section 4, C45', assumptions=MC_ASSUME,
+    rule='one evaluation = one complete execution under one schedule; distinct_nontrivial = distinct scheduler states with more than one continuation',
+    guards=[need_outcomes(2)])
+
+
+# ---------------------------------------------------------------------------------------------- C25
+def c25_runs(tier):
+    runs, seen = [], set()
+
+    def add(size, progs, bound, mode='plain'):
+        key = (size, tuple(sorted(progs[1:])), progs[0], bound, mode)
+        if key in seen:
+            return
+        seen.add(key)
+        params = {'t%d' % i: p for i, p in enumerate(progs)}
+        params['size'] = size
+        runs.append(McRun('c25_resource_pool', 'resource_pool', params, bound=bound, mode=mode, budget=60))
+    b = 1 if tier == 'quick' else 2
+    for size in (1, 2):
+        for progs in (['a', 'a'], ['aa', 'a'], ['aa', 'aa'], ['a', 'a', 'a'], ['aa', 'a', 'a']):
+            add(size, progs, b if len(progs) == 3 or size == 2 else b + 1)
+    for progs in (['m', 'a'], ['m', 'aa'], ['m', 'a', 'a'], ['ma', 'a', 'a']):
+        add(2, progs, b)
+    if tier != 'quick':
+        for size in (3, 4):
+            add(size, ['aa', 'aa', 'a', 'a'], 1)
+            add(size, ['m', 'a', 'a', 'a'], 1)
+        add(3, ['m', 'aa', 'a'], 2)
+    add(1, ['a', 'a', 'a'], 1, mode='tsan')
+    add(2, ['m', 'a', 'a'], 1, mode='asan')
+    return runs
+
+
+reg('C25', level='model_checking', runs=c25_runs, quick_budget_s=240, thorough_budget_s=1200,
+    technique='stateless model checking of the real ResourcePool (moodycamel blocking queue + modelled POSIX semaphore): all interleavings of acquirers/releasers up to a deviation bound',
+    level_text='pools of size 1-2 (3-4 thorough) with 2-3 (4) threads each running {acquire; use; release} once or twice, plus one thread move-assigning a second handle onto a live one; every interleaving with <=1 deviation (2 for two threads; thorough one more). Oracle: per-resource holder count <=1, held <= size, init ran size times, a blocked acquire proceeds after a release (a thread left blocked is a deadlock verdict), at quiescence exactly size distinct resources can be acquired, every resource destroyed once (lifetime registry).',
+    level_note='sem_wait/sem_post/sem_timedwait are modelled; moodycamel is explored through its atomics as part of the code under test',
+    design_ref='DESIGN.md section 4, C25', assumptions=MC_ASSUME,
+    rule='one evaluation = one complete execution of one program tuple under one schedule; distinct_nontrivial = distinct scheduler states with more than one continuation',
+    guards=[need_outcomes(1)])
